@@ -37,7 +37,7 @@ import (
 	"github.com/KafScale/platform/pkg/metadata"
 )
 
-const c39BrokerRule = "[broker-writer histories, same embedded etcd] PRNG histories of 4-9 steps after a first publish of a cluster with 2-7 explicit broker replicas and 1-5 topics: BETWEEN operator publishes the snapshot key is rewritten by the broker side through the real metadata.EtcdStore (one fresh store per write, refreshed from etcd first: CreatePartitions on a topic a KafscaleTopic declares, CreatePartitions on a topic no resource declares, CreateTopic, DeleteTopic) and the resources are edited (spec.brokers.replicas down and up; a KafscaleTopic added - new name, the name of a broker-created topic, or a removed one re-added with another count -, removed, resized up, resized DOWN); a third of the histories are free draws, two thirds are drawn around the pattern <the stored entry of a declared topic stops matching its resource (broker grows or deletes it, resource resized down)> ... <the broker set changes>, with free steps before, between and after; a cluster edit is published by ClusterReconciler.Reconcile, a topic edit by TopicReconciler.Reconcile or ClusterReconciler.Reconcile, a third of the broker writes are followed by a publish without any edit; EVERY snapshot a publish leaves under the key is read back and judged by the same oracle against the latest resources and rendered objects (class prefix after_broker_write_ once a broker-side write changed the key in that history, after_spec_edit_ before); where the key held MORE partitions for a declared topic than its resource declares right before the publish (broker CreatePartitions, resource resized down) the published count may be the declared or the stored one (the statement fixes numbering and leaders, not the count; Kafka never shrinks a topic), everywhere else it is the declared one; topics of the published snapshot that no resource declares (broker-created, resource removed) and replica/ISR lists are observations only (obs_*)"
+const c39BrokerRule = "[broker-writer histories, same embedded etcd] PRNG histories of 2-9 steps after a first publish of a cluster with 2-7 explicit broker replicas and 1-5 topics: BETWEEN operator publishes the snapshot key is rewritten by the broker side through the real metadata.EtcdStore (one fresh store per write, refreshed from etcd first: CreatePartitions on a topic a KafscaleTopic declares, CreatePartitions on a topic no resource declares, CreateTopic, DeleteTopic) and the resources are edited (spec.brokers.replicas down and up; a KafscaleTopic added - new name, the name of a broker-created topic, or a removed one re-added with another count -, removed, resized up, resized DOWN); a quarter of the histories are free draws, the others are drawn around the pattern <the stored entry of a declared topic stops matching its resource (broker grows or deletes it, resource resized down)> ... <the broker set changes>, with free steps before, between and after; a cluster edit is published by ClusterReconciler.Reconcile, a topic edit by TopicReconciler.Reconcile or ClusterReconciler.Reconcile, a quarter of the broker writes are followed by a publish without any edit; EVERY snapshot a publish leaves under the key is read back and judged by the same oracle against the latest resources and rendered objects (class prefix after_broker_write_ once a broker-side write changed the key in that history, after_spec_edit_ before); where the key held MORE partitions for a declared topic than its resource declares right before the publish (broker CreatePartitions, resource resized down) the published count may be the declared or the stored one (the statement fixes numbering and leaders, not the count; Kafka never shrinks a topic), everywhere else it is the declared one; topics of the published snapshot that no resource declares (broker-created, resource removed) and replica/ISR lists are observations only (obs_*)"
 
 // c39ReadStored reads what is under the snapshot key right now (found=false: no key).
 func c39ReadStored(ctx context.Context, cli *clientv3.Client) (meta metadata.ClusterMetadata, found bool, err error) {
@@ -304,6 +304,8 @@ func (h *c39BH) editCluster(ctx context.Context, to int32) bool {
 // step performs one step of kind; it returns false when the history cannot go on.
 func (h *c39BH) step(ctx context.Context, rng *rand.Rand, kind string, step int) bool {
 	q, r := h.q, h.q.r
+	quiet := strings.HasSuffix(kind, "!") // no periodic reconcile right after this broker write
+	kind = strings.TrimSuffix(kind, "!")
 	stored, _, err := c39ReadStored(ctx, q.cli)
 	if err != nil {
 		h.aborted = true
@@ -323,7 +325,7 @@ func (h *c39BH) step(ctx context.Context, rng *rand.Rand, kind string, step int)
 	}
 	afterBrokerWrite := func() bool {
 		// a periodic reconcile may or may not come before the next change
-		if rng.Intn(3) != 0 {
+		if quiet || rng.Intn(4) != 0 {
 			return true
 		}
 		var via *kafscalev1alpha1.KafscaleTopic
@@ -394,7 +396,12 @@ func (h *c39BH) step(ctx context.Context, rng *rand.Rand, kind string, step int)
 		cur := h.replicas()
 		to := cur + int32(1+rng.Intn(4))
 		if kind == "replicas_down" && cur >= 2 {
-			to = int32(1 + rng.Intn(int(cur-1)))
+			// the fewer brokers stay, the more stored leaders stop being brokers
+			a, b := rng.Intn(int(cur-1)), rng.Intn(int(cur-1))
+			if b < a {
+				a = b
+			}
+			to = int32(1 + a)
 		}
 		h.editCluster(ctx, to)
 		return h.publish(ctx, nil)
@@ -491,18 +498,22 @@ func c39PlanHistory(rng *rand.Rand) []string {
 		}
 		return out
 	}
-	if rng.Intn(3) == 0 {
+	if rng.Intn(4) == 0 {
 		return free(4 + rng.Intn(6))
 	}
-	// <stored entry of a declared topic stops matching its resource> ... <the broker set changes>
-	diverge := []string{"broker_grow_declared", "broker_grow_declared", "crd_resize_down", "broker_delete_declared"}[rng.Intn(4)]
+	// <stored entry of a declared topic stops matching its resource> ... <the broker set changes>;
+	// a trailing "!" = no periodic reconcile right after this broker write
+	diverge := []string{"broker_grow_declared!", "broker_grow_declared!", "broker_grow_declared", "crd_resize_down", "broker_delete_declared"}[rng.Intn(5)]
 	change := []string{"replicas_down", "replicas_down", "replicas_down", "replicas_up"}[rng.Intn(4)]
 	plan := free(rng.Intn(3))
 	plan = append(plan, diverge)
 	if rng.Intn(2) == 0 {
-		plan = append(plan, []string{"broker_grow_declared", "broker_grow_undeclared", "broker_create_topic", "crd_resize_down"}[rng.Intn(4)])
+		if rng.Intn(3) != 0 {
+			plan = append(plan, []string{"broker_grow_declared!", "broker_grow_undeclared!", "broker_create_topic!", "broker_delete_any!"}[rng.Intn(4)])
+		} else {
+			plan = append(plan, free(1)...)
+		}
 	}
-	plan = append(plan, free(rng.Intn(2))...)
 	plan = append(plan, change)
 	plan = append(plan, free(rng.Intn(3))...)
 	return plan
@@ -510,7 +521,7 @@ func c39PlanHistory(rng *rand.Rand) []string {
 
 // c39BrokerHistories runs the second phase of the publish leg.
 func c39BrokerHistories(ctx context.Context, t *testing.T, r *verifkit.Run, cli *clientv3.Client, scheme *runtime.Scheme, endpoints []string) {
-	n := r.N(40, 600)
+	n := r.N(50, 700)
 	for hi := 0; hi < n; hi++ {
 		rng := r.Rand(1<<16 + hi)
 		oc := opGenCluster(rng, opGenOpts{EtcdEndpoints: endpoints})
@@ -593,5 +604,5 @@ func c39BrokerHistories(ctx context.Context, t *testing.T, r *verifkit.Run, cli 
 	r.Floor("history_publishes_over_a_key_holding_undeclared_topics", int64(n/4))
 	r.Floor("history_publishes_over_a_longer_stored_partition_list_of_a_declared_topic", int64(n/3))
 	r.Floor("history_publishes_over_a_stored_declared_topic_led_by_a_broker_outside_the_spec", int64(n/4))
-	r.Floor("history_publishes_over_a_longer_stored_partition_list_led_by_a_broker_outside_the_spec", int64(n/10))
+	r.Floor("history_publishes_over_a_longer_stored_partition_list_led_by_a_broker_outside_the_spec", int64(n/16))
 }
